@@ -876,3 +876,62 @@ pub fn wrap_nested<S: Strat>(fill_reader: bool) {
     w.join();
     epilogue_p(vec![c], fil, vec![], false, "C03");
 }
+
+// ------------------------------------------------------------------------------------------
+// C08 adversary: complete writes between any two steps of one load
+
+/// Thread 1 = writer (up to `k` complete stores, scheduled by the adversary policy into the gaps
+/// of the reader's call), thread 2 = reader holding `g` guards of the container and, with
+/// `fill`, all remaining fast slots. The reader's load is the call under test.
+pub fn adversary<S: Strat>(k: usize, g: usize, fill: bool) {
+    let c = Cont::<S>::new(0, V::new(1));
+    let fil = filler::<S>();
+    let w = {
+        let (c, fil) = (c.clone(), fil.clone());
+        rt::spawn(move || {
+            let h = prologue(&fil, false);
+            rt::quiet(|| rt::barrier(2));
+            for i in 0..k {
+                store(&c, V::new(11 + i as u64));
+                rt::call_boundary();
+            }
+            release(h);
+        })
+    };
+    let r = {
+        let (c, fil) = (c.clone(), fil.clone());
+        rt::spawn(move || {
+            let mut guards: Vec<Guard<V, S>> = Vec::new();
+            let h = prologue(&fil, false);
+            let mut h2 = Vec::new();
+            rt::quiet(|| {
+                for _ in 0..g {
+                    guards.push(c.sw.load());
+                }
+                if fill {
+                    for _ in 0..SLOTS {
+                        h2.push(fil.sw.load());
+                    }
+                }
+                rt::barrier(2);
+            });
+            let x = load(&c);
+            let l = x.peek_label();
+            use_value(&x, l, "guard taken under the adversary");
+            let y = load_full(&c);
+            let ly = y.peek_label();
+            use_value(&y, ly, "load_full under the adversary");
+            drop_guard(x);
+            drop_value(y);
+            rt::quiet(|| {
+                drop(guards);
+                drop(h2);
+            });
+            release(h);
+        })
+    };
+    rt::join_all();
+    w.join();
+    r.join();
+    epilogue_p(vec![c], fil, vec![], false, "C03");
+}
